@@ -1,5 +1,6 @@
 // rapidcheck-based generator and shrinker for FmmCase. Independent of /repo.
 #include "pbt.hpp"
+#include <chrono>
 #include "../model/refmodel.hpp"
 
 #include <rapidcheck.h>
@@ -224,6 +225,12 @@ FmmCase genCase(const GenCfg& g){
             }
         }
     }
+    if(g.emptySets && U(0, 40) == 0){
+        // an empty particle set is a valid input (the tree constructor has an explicit branch for it)
+        const int which = g.tsm ? U(0, 3) : 0;
+        if(which == 0 || which == 2) c.pos.clear();
+        if(g.tsm && (which == 1 || which == 2)) c.tpos.clear();
+    }
     c.nextra = g.maxNextra > 0 ? U(0, g.maxNextra + 1) : 0;
     if(c.nextra){
         auto fill = [&](std::vector<double>& ex, size_t n){
@@ -335,9 +342,15 @@ RunResult run(const std::string& name, const GenCfg& cfg, const Prop& prop,
         setenv("RC_PARAMS", os.str().c_str(), 1);
     }
     bool inShrink = false;
+    // shrinking is bounded by a wall-clock budget (VERIF_SHRINK_BUDGET seconds, default 120): past it every further candidate is
+    // accepted without being evaluated, so rapidcheck stops at the smallest failing case found so far. The budget only limits how
+    // small the replay file gets; the verdict (a failing case exists) was reached before shrinking began.
+    const double shrinkBudget = getenv("VERIF_SHRINK_BUDGET") ? atof(getenv("VERIF_SHRINK_BUDGET")) : 120.0;
+    std::chrono::steady_clock::time_point shrinkStart;
     const bool ok = rc::check(name, [&](){
         const FmmCase c = genCase(cfg);
         if(inShrink) res.shrinkSteps += 1; else res.executed += 1;
+        if(inShrink && std::chrono::duration<double>(std::chrono::steady_clock::now() - shrinkStart).count() > shrinkBudget) return;
         const std::string msg = prop(c);
         if(msg.empty()) return;
         if(msg.compare(0, 4, "SKIP") == 0) RC_DISCARD(msg);
@@ -345,6 +358,7 @@ RunResult run(const std::string& name, const GenCfg& cfg, const Prop& prop,
         // here is the minimal one it found
         res.failing = c;
         res.message = msg;
+        if(!inShrink) shrinkStart = std::chrono::steady_clock::now();
         inShrink = true;
         RC_FAIL(msg);
     });
